@@ -47,6 +47,10 @@ func (o obj) geo() verifapi.Geo {
 	return verifapi.GeoBounds(o.a[0], o.a[1], o.a[2], o.a[3])
 }
 
+// fields a WHEREEVAL script may read; `speed` is carried only by some objects (a missing field is
+// nil in Lua: the script's `or 0` reads it as 0, like WHERE does)
+var evalFields = []string{"f", "g", "speed"}
+
 type filters struct {
 	match     string // "" = none
 	where     *[3]int
@@ -69,7 +73,7 @@ func (f filters) args() []string {
 		}
 	}
 	if f.whereeval != nil {
-		a = append(a, "WHEREEVAL", "return (FIELDS."+[]string{"f", "g"}[f.whereeval[0]]+" or 0) >= tonumber(ARGV[1])", "1", strconv.Itoa(f.whereeval[1]))
+		a = append(a, "WHEREEVAL", "return (FIELDS."+evalFields[f.whereeval[0]]+" or 0) >= tonumber(ARGV[1])", "1", strconv.Itoa(f.whereeval[1]))
 	}
 	return a
 }
@@ -109,7 +113,7 @@ func (f filters) accept(o obj, matchValues bool) bool {
 		}
 	}
 	if f.whereeval != nil {
-		if o.fields[[]string{"f", "g"}[f.whereeval[0]]] < f.whereeval[1] {
+		if o.fields[evalFields[f.whereeval[0]]] < f.whereeval[1] {
 			return false
 		}
 	}
@@ -316,6 +320,9 @@ func randObj(rng *rand.Rand, id, key string) obj {
 	if rng.Intn(3) != 0 {
 		o.fields["g"] = rng.Intn(3) + 1
 	}
+	if rng.Intn(2) == 0 {
+		o.fields["speed"] = 10 * (1 + rng.Intn(6))
+	}
 	// a zero field is not stored; keep the client-side view identical
 	for k, v := range o.fields {
 		if v == 0 {
@@ -350,6 +357,15 @@ func randObj(rng *rand.Rand, id, key string) obj {
 	return o
 }
 
+// sp: odd entries carry `speed`, even ones do not — objects of one collection with different
+// field sets, for WHEREEVAL scripts that read a sometimes-missing field
+func sp(i int, m map[string]int) map[string]int {
+	if i%2 == 1 {
+		m["speed"] = 50
+	}
+	return m
+}
+
 func buildDataset(rng *rand.Rand, c *srv.Conn, r *hx.Result, mode string) *dataset {
 	d := &dataset{objs: map[string]map[string]obj{}}
 	defer d.flush(c)
@@ -359,9 +375,9 @@ func buildDataset(rng *rand.Rand, c *srv.Conn, r *hx.Result, mode string) *datas
 		// half-integer grid, 300 strings, 600 objects in the mixed key
 		for i := 0; i < 300; i++ {
 			la, lo := float64(i/20)/2-4, float64(i%20)/2-5
-			d.set(c, "pts", obj{id: fmt.Sprintf("p%04d", i), kind: "point", a: [4]float64{la, lo}, fields: map[string]int{"f": i % 5, "g": 1 + i%3}})
-			d.set(c, "strs", obj{id: fmt.Sprintf("s%04d", i), kind: "string", val: fmt.Sprintf("v%03d", (i*7)%300/2), fields: map[string]int{"f": i % 5}})
-			d.set(c, "mix", obj{id: fmt.Sprintf("p%04d", i), kind: "point", a: [4]float64{la, lo}, fields: map[string]int{"g": 1 + i%3}})
+			d.set(c, "pts", obj{id: fmt.Sprintf("p%04d", i), kind: "point", a: [4]float64{la, lo}, fields: sp(i, map[string]int{"f": i % 5, "g": 1 + i%3})})
+			d.set(c, "strs", obj{id: fmt.Sprintf("s%04d", i), kind: "string", val: fmt.Sprintf("v%03d", (i*7)%300/2), fields: sp(i, map[string]int{"f": i % 5})})
+			d.set(c, "mix", obj{id: fmt.Sprintf("p%04d", i), kind: "point", a: [4]float64{la, lo}, fields: sp(i, map[string]int{"g": 1 + i%3})})
 			d.set(c, "mix", obj{id: fmt.Sprintf("s%04d", i), kind: "string", val: fmt.Sprintf("v%03d", i%150), fields: map[string]int{}})
 		}
 		return d
@@ -370,9 +386,9 @@ func buildDataset(rng *rand.Rand, c *srv.Conn, r *hx.Result, mode string) *datas
 		// regression corpus: small fixed collections; LIMITs that hit exactly the end are part of
 		// the LIMIT sweep
 		for i, id := range []string{"a", "ab", "abc", "b", "b1", "c"} {
-			d.set(c, "pts", obj{id: id, kind: "point", a: [4]float64{float64(i), float64(i % 3)}, fields: map[string]int{"f": i % 3, "g": 1 + i%2}})
-			d.set(c, "strs", obj{id: id, kind: "string", val: []string{"b", "a", "ab", "b", "", "c"}[i], fields: map[string]int{"f": i % 3}})
-			d.set(c, "mix", obj{id: id, kind: []string{"point", "string"}[i%2], a: [4]float64{1, 1}, val: "v" + id, fields: map[string]int{}})
+			d.set(c, "pts", obj{id: id, kind: "point", a: [4]float64{float64(i), float64(i % 3)}, fields: sp(i, map[string]int{"f": i % 3, "g": 1 + i%2})})
+			d.set(c, "strs", obj{id: id, kind: "string", val: []string{"b", "a", "ab", "b", "", "c"}[i], fields: sp(i, map[string]int{"f": i % 3})})
+			d.set(c, "mix", obj{id: id, kind: []string{"point", "string"}[i%2], a: [4]float64{1, 1}, val: "v" + id, fields: sp(i/2, map[string]int{})})
 		}
 		for k := range d.objs {
 			for id, o := range d.objs[k] {
@@ -470,7 +486,10 @@ func randFilters(rng *rand.Rand, ids []string, vals []string, matchValues bool) 
 		}
 	}
 	if rng.Intn(5) == 0 {
-		f.whereeval = &[2]int{rng.Intn(2), rng.Intn(4)}
+		f.whereeval = &[2]int{rng.Intn(3), rng.Intn(4)}
+		if f.whereeval[0] == 2 {
+			f.whereeval[1] = 10 * rng.Intn(7)
+		}
 	}
 	return f
 }
@@ -920,7 +939,7 @@ func (x *ctx) runQuery(q query, qi int) {
 	mids, mcur, raw := x.modelPage(src, big, "0")
 	if mcur != "0" || join(mids) != join(unl.ids) {
 		x.fail("correspondence", "cursor-unlimited-model", "unlimited reply differs from Model.Cursor.page with a limit above the collection size", q, nil, unl.view(), raw)
-		return
+		// keep going: the pages-vs-unlimited oracle below must still look at this query
 	}
 	for _, L := range x.limits(src.n) {
 		ls := strconv.Itoa(L)
@@ -1047,6 +1066,8 @@ func bigQueries() []query {
 		{cmd: "nearby", key: "pts", area: []string{"POINT", "0.1", "0.2"}, lat: 0.1, lon: 0.2, rad: -1},
 		{cmd: "nearby", key: "pts", sdist: true, flt: filters{where: w}, area: []string{"POINT", "3", "-2"}, lat: 3, lon: -2, rad: -1},
 		{cmd: "nearby", key: "mix", area: []string{"POINT", "0.1", "0.2", "5000000"}, lat: 0.1, lon: 0.2, rad: 5000000},
+		{cmd: "scan", key: "pts", flt: filters{whereeval: &[2]int{2, 11}}, rad: -1},
+		{cmd: "intersects", key: "pts", flt: filters{whereeval: &[2]int{2, 11}}, area: all, ageo: allg, rad: -1},
 	}
 }
 
@@ -1170,6 +1191,14 @@ func fixedQueries() []query {
 		{cmd: "scan", key: "pts", flt: filters{whereeval: &[2]int{0, 1}}, rad: -1},
 		{cmd: "search", key: "strs", desc: 2, flt: filters{whereeval: &[2]int{0, 2}}, rad: -1},
 		{cmd: "nearby", key: "pts", flt: filters{whereeval: &[2]int{1, 2}, where: w1}, area: pt(1, 1), lat: 1, lon: 1, rad: -1},
+		// WHEREEVAL on a field only the odd entries carry: return (FIELDS.speed or 0) >= 11
+		{cmd: "scan", key: "pts", flt: filters{whereeval: &[2]int{2, 11}}, rad: -1},
+		{cmd: "scan", key: "pts", desc: 2, flt: filters{whereeval: &[2]int{2, 11}}, rad: -1},
+		{cmd: "scan", key: "mix", flt: filters{whereeval: &[2]int{2, 11}}, rad: -1},
+		{cmd: "search", key: "strs", flt: filters{whereeval: &[2]int{2, 11}}, rad: -1},
+		{cmd: "within", key: "pts", flt: filters{whereeval: &[2]int{2, 11}}, area: []string{"BOUNDS", "-1", "-1", "9", "9"}, ageo: verifapi.GeoBounds(-1, -1, 9, 9), rad: -1},
+		{cmd: "intersects", key: "pts", flt: filters{whereeval: &[2]int{2, 11}}, area: []string{"BOUNDS", "-1", "-1", "9", "9"}, ageo: verifapi.GeoBounds(-1, -1, 9, 9), rad: -1},
+		{cmd: "nearby", key: "pts", flt: filters{whereeval: &[2]int{2, 11}}, area: pt(1, 1), lat: 1, lon: 1, rad: -1},
 		{cmd: "scan", key: "nosuchkey", rad: -1},
 	}
 }
